@@ -160,6 +160,22 @@ class Ctx:
         self.extra: dict = {}
         self._vkeys: dict[str, int] = {}
         self.sample_cap = 6
+        self.journal_path: str | None = None
+        self._jfh = None
+
+    def journal(self, case):
+        """write-ahead journal: the case about to run, so that a dead child names its input"""
+        if self.journal_path is None:
+            return
+        if self._jfh is None:
+            self._jfh = open(self.journal_path, "w")
+        self._jfh.seek(0)
+        self._jfh.truncate()
+        try:
+            self._jfh.write(canon(case)[:200000])
+        except Exception:
+            self._jfh.write(repr(case)[:200000])
+        self._jfh.flush()
 
     # time
     def elapsed(self) -> float:
@@ -276,6 +292,7 @@ def match_known(prop: str, key: str, known):
 def run_child(prop: str, tier: str, shard: int, nshards: int, out: str, budget_s: float):
     seed = int(os.environ.get("VERIF_SEED", "0") or 0)
     ctx = Ctx(prop, tier, seed, shard, nshards, budget_s)
+    ctx.journal_path = out + ".journal"
     mod = importlib.import_module(f"jmon.props.{prop.lower()}")
     status = "ok"
     try:
@@ -347,7 +364,7 @@ def run_parent(prop: str, tier: str) -> int:
                         p.kill()
                         p.wait()
                         log.close()
-                        dead.append((i, "watchdog timeout"))
+                        dead.append((i, "watchdog timeout", ""))
                     else:
                         still.append((i, p, out, log, ts))
                     continue
@@ -362,7 +379,10 @@ def run_parent(prop: str, tier: str) -> int:
                     results.append(r)
                 else:
                     tail = open(os.path.join(scratch, f"shard{i}.log"), "rb").read()[-1500:].decode("utf-8", "replace")
-                    dead.append((i, f"exit {rc}: {tail}"))
+                    jr = ""
+                    if os.path.exists(out + ".journal"):
+                        jr = open(out + ".journal").read()
+                    dead.append((i, f"exit {rc}: {tail}", jr))
             running = still
         return _finish(prop, tier, seed, mod, results, dead, t0)
     finally:
@@ -407,8 +427,16 @@ def _finish(prop, tier, seed, mod, results, dead, t0) -> int:
             viol.setdefault(v["key"], []).append(v)
         for k, n in r.get("vkeys", {}).items():
             vcount[k] = vcount.get(k, 0) + n
-    for i, why in dead:
-        inconclusive.append(f"shard {i} died: {why[-400:]}")
+    for i, why, jr in dead:
+        if getattr(mod, "DEATH_IS_VIOLATION", False) and jr and "watchdog" not in why:
+            try:
+                jcase = json.loads(jr)
+            except Exception:
+                jcase = jr[:2000]
+            viol.setdefault("interpreter-died", []).append({"key": "interpreter-died", "what": f"the interpreter died while running this case: {why[-300:]}", "case": jcase})
+            vcount["interpreter-died"] = vcount.get("interpreter-died", 0) + 1
+        else:
+            inconclusive.append(f"shard {i} died: {why[-400:]}")
     # merged-level requirements
     for (cname, minimum, why) in getattr(mod, "REQUIRE", []):
         if counters.get(cname, 0) < minimum:
